@@ -499,7 +499,7 @@ META["C17"] = dict(
         "st.rule.argv-named+config-disagrees": g(30, 300),
         "st.depth.2": g(300, 3000), "st.depth.3": g(150, 1500),
         "st.channel.object": g(200, 2000), "st.channel.argv+cfgfile": g(200, 2000),
-        "st.default_config_sections_for_subcommands": g(500, 5000),
+        "st.default_config_sections_for_subcommands": g(500, 5000), "st.null_section_of_other_subcommand": g(100, 1000),
     },
     assumptions=["the multiple-settings warning is not judged"],
 )
